@@ -157,6 +157,17 @@ theorem softmax8_depth512_witness :
     SoftmaxKernel.softmaxRow8 (List.replicate 512 7) 1717986918 1 dm8 (-128) 127 = List.replicate 512 (-127) := by
   decide +kernel
 
+/-- the two hypotheses on the parameters are needed for the equality with this reference: (1) an output zero point other than the
+    type minimum (TFLite's `Prepare` rejects such a SOFTMAX) — the NPU adds the OFM zero point, the kernel `numeric_limits::min()`;
+    (2) a hypothetical 8-bit-wide type whose codes lie outside the int16 range — ACTIVATION_MIN/MAX are limited to int16, so the
+    max pool and the final clamp cut the values -/
+theorem softmax8_param_hypotheses_witness :
+    (runGraph8 ⟨0, -128, 127, -100⟩ (SoftmaxKernel.expTable8 1717986918 1 dm8) [3, 4] = .ok [28, 28] ∧
+      SoftmaxKernel.softmaxRow8 [3, 4] 1717986918 1 dm8 (-128) 127 = [0, 0]) ∧
+    (runGraph8 ⟨0, -40000, -39745, -40000⟩ (SoftmaxKernel.expTable8 1717986918 1 dm8) [-40000, -39990] = .ok [-32768, -32768] ∧
+      SoftmaxKernel.softmaxRow8 [-40000, -39990] 1717986918 1 dm8 (-40000) (-39745) = [-39872, -39872]) := by
+  decide +kernel
+
 example : npuRecip 1234567890 = SoftmaxKernel.oneOverOnePlusX 1234567890 := by decide +kernel
 example : Inv 1610612736 1000000000 := ⟨by decide, by decide, by decide⟩
 
